@@ -33,6 +33,9 @@ use std::panic::{catch_unwind, AssertUnwindSafe};
 use std::sync::Arc;
 use vcommon::*;
 
+/// `required` sets carry two kinds of entries: pos0 of unspent leaves, and pos0 | POISON_FLAG for every leaf the
+/// root depends on under the bitmap (unspent, sibling of unspent, last position of the MMR).
+const POISON_FLAG: u64 = 1 << 62;
 const TREES: [&str; 4] = ["bitmap", "output", "rangeproof", "kernel"];
 
 fn keychain() -> ExtKeychain {
@@ -70,6 +73,7 @@ fn hx(h: &Hash) -> String {
 }
 
 struct Utxo {
+	leaf: u64, // 0-based leaf index in the output MMR
 	commit: Commitment,
 	key: Identifier,
 	value: u64,
@@ -274,7 +278,7 @@ fn build_phase(args: &Args) -> i32 {
 	let src = init_chain(&format!("{}/src/chain_data", dir), &g);
 	let mut blocks: Vec<Block> = vec![g.clone()];
 	let mut commits: Vec<(String, Commitment)> = vec![("g".into(), gr.0.commitment())];
-	let mut utxos: Vec<Utxo> = vec![Utxo { commit: gr.0.commitment(), key: kid(1, 0), value: 60_000_000_000, coinbase: true, height: 0, group: 0 }];
+	let mut utxos: Vec<Utxo> = vec![Utxo { leaf: 0, commit: gr.0.commitment(), key: kid(1, 0), value: 60_000_000_000, coinbase: true, height: 0, group: 0 }];
 	let mut next_key = 0u32;
 	let mut stale = Value::Null;
 	let mut compacted = false;
@@ -290,6 +294,20 @@ fn build_phase(args: &Args) -> i32 {
 	let mut shape = json!({"archive_target": a_target, "odd": false, "last_spent_at": Value::Null});
 	for h in 1..=n_blocks {
 		let prev = blocks[(h - 1) as usize].header.clone();
+		let leaves_before = commits.len() as u64;
+		// the block that is head when compaction runs spends two old sibling leaves (created before the horizon):
+		// they are unspent for every state between the horizon and head - 1, so compaction must keep them
+		let old_pair: Option<(usize, usize)> = if h == compact_at && h > 25 {
+			let ok = |u: &Utxo| u.height + 21 <= h && (!u.coinbase || u.height + 4 <= h) && u.value >= 30_000_000;
+			(0..utxos.len())
+				.filter(|i| ok(&utxos[*i]) && utxos[*i].leaf % 2 == 0)
+				.find_map(|i| (0..utxos.len()).find(|j| ok(&utxos[*j]) && utxos[*j].leaf == utxos[i].leaf + 1).map(|j| (i, j)))
+		} else {
+			None
+		};
+		if h == compact_at {
+			shape["compaction_head_spends_old_sibling_pair"] = json!(old_pair.map(|(i, j)| vec![utxos[i].leaf, utxos[j].leaf]));
+		}
 		// spend 1..3 matured outputs (preferably neighbours created by one transaction) into several outputs
 		let spendable: Vec<usize> = (0..utxos.len())
 			.filter(|i| (!utxos[*i].coinbase || utxos[*i].height + 4 <= h) && utxos[*i].value >= 200_000_000)
@@ -301,16 +319,23 @@ fn build_phase(args: &Args) -> i32 {
 				utxos[*i].commit == fc && (!utxos[*i].coinbase || utxos[*i].height + 4 <= h) && utxos[*i].value >= 30_000_000
 			})
 		});
-		let want_tx = forced_idx.is_some() || (h == a_target && !spendable.is_empty());
-		if forced_idx.is_some() || (!spendable.is_empty() && (want_tx || rng.gen_range(0, 10) < 9)) {
-			let first = forced_idx.unwrap_or_else(|| spendable[rng.gen_range(0, spendable.len())]);
-			if forced_idx.is_some() {
+		let want_tx = forced_idx.is_some() || old_pair.is_some() || (h == a_target && !spendable.is_empty());
+		if forced_idx.is_some() || old_pair.is_some() || (!spendable.is_empty() && (want_tx || rng.gen_range(0, 10) < 9)) {
+			let first = match (old_pair, forced_idx) {
+				(Some((i, _)), _) => i,
+				(None, Some(i)) => i,
+				_ => spendable[rng.gen_range(0, spendable.len())],
+			};
+			if forced_idx.is_some() && old_pair.is_none() {
 				force = None;
 				shape["last_spent_at"] = json!(h);
 			}
 			let grp = utxos[first].group;
 			let mut ins: Vec<usize> = vec![first];
-			let want = rng.gen_range(1, 4);
+			let want = if old_pair.is_some() { 0 } else { rng.gen_range(1, 4) };
+			if let Some((_, j)) = old_pair {
+				ins.push(j);
+			}
 			for i in &spendable {
 				if ins.len() < want && *i != first && (utxos[*i].group == grp || rng.gen_range(0, 4) == 0) {
 					ins.push(*i);
@@ -344,7 +369,7 @@ fn build_phase(args: &Args) -> i32 {
 				let key = kid(2, next_key);
 				elems.push(build::output(v, key.clone()));
 				let commit = kc.commit(v, &key, SwitchCommitmentType::Regular).expect("commit");
-				new_utxos.push(Utxo { commit, key, value: v, coinbase: false, height: h, group: h });
+				new_utxos.push(Utxo { leaf: 0, commit, key, value: v, coinbase: false, height: h, group: h });
 			}
 			let tx = build::transaction(
 				KernelFeatures::Plain { fee: FeeFields::new(0, fee).unwrap() },
@@ -366,8 +391,14 @@ fn build_phase(args: &Args) -> i32 {
 		}
 		let rw = reward::output(&kc, &pb, &kid(1, h as u32), fees, false).unwrap();
 		commits.push((format!("c{}", h), rw.0.commitment()));
-		utxos.push(Utxo { commit: rw.0.commitment(), key: kid(1, h as u32), value: 60_000_000_000 + fees, coinbase: true, height: h, group: 1_000_000 + h });
+		utxos.push(Utxo { leaf: 0, commit: rw.0.commitment(), key: kid(1, h as u32), value: 60_000_000_000 + fees, coinbase: true, height: h, group: 1_000_000 + h });
 		let mut blk = Block::new(&prev, &txs, Difficulty::from_num(1), rw).expect("block new");
+		for (j, o) in blk.outputs().iter().enumerate() {
+			let c = o.commitment();
+			if let Some(u) = utxos.iter_mut().find(|u| u.commit == c) {
+				u.leaf = leaves_before + j as u64;
+			}
+		}
 		blk.header.timestamp = prev.timestamp + Duration::seconds(60);
 		src.set_txhashset_roots(&mut blk).expect("roots");
 		src.process_block(blk.clone(), Options::SKIP_POW).expect("process on source");
@@ -538,6 +569,17 @@ fn corrupt_seg<T: Clone + Readable + Writeable>(
 			Some(i) => alt(&mut ps, i),
 			None => return Err("unavailable".into()),
 		},
+		// data of a leaf the root does NOT depend on (spent, sibling spent, not the last MMR position): the
+		// segment still validates; only the final root check can notice
+		"poison_spent" => {
+			let unrequired = (0..ps.leaf_pos.len())
+				.rev()
+				.find(|i| required.map(|r| !r.contains(&(ps.leaf_pos[*i] | POISON_FLAG))).unwrap_or(false));
+			match unrequired {
+				Some(i) => alt(&mut ps, i),
+				None => return Err("unavailable".into()),
+			}
+		}
 		"omit_leaf" => match pick {
 			Some(i) => {
 				ps.leaf_pos.remove(i);
@@ -588,6 +630,95 @@ fn alt_kernel(ps: &mut PlainSeg<TxKernel>, i: usize) {
 	ps.leaf_data[i].excess.0[7] ^= 0x01;
 }
 
+/// Honest delivery of one stored segment (probe driver; no corruption, no projection).
+fn deliver_honest(de: &mut grin_chain::txhashset::Desegmenter, dir: &str, tree: &str, idx: u64) -> Result<(), String> {
+	let path = format!("{}/{}_{}.seg", dir, tree, idx);
+	let bytes = fs::read(&path).map_err(|e| format!("{}", e))?;
+	let other_root = fs::read_to_string(format!("{}.root", path)).ok().map(|s| Hash::from_hex(s.trim()).unwrap());
+	match tree {
+		"bitmap" => {
+			let bs: BitmapSegment = from_bytes(&bytes).map_err(|e| format!("{}", e))?;
+			let s: Segment<BitmapChunk> = bs.into_segment().map_err(|e| format!("{}", e))?;
+			de.add_bitmap_segment(s, other_root.unwrap()).map_err(|e| format!("{}", e))
+		}
+		"output" => de.add_output_segment(from_bytes(&bytes).map_err(|e| format!("{}", e))?, other_root).map_err(|e| format!("{}", e)),
+		"rangeproof" => de.add_rangeproof_segment(from_bytes(&bytes).map_err(|e| format!("{}", e))?).map_err(|e| format!("{}", e)),
+		_ => de.add_kernel_segment(from_bytes(&bytes).map_err(|e| format!("{}", e))?).map_err(|e| format!("{}", e)),
+	}
+}
+
+/// OBSERVATION probe (outside C16's statement, which quantifies over sources and arrival orders, not over
+/// restarts of the receiver): the receiving node is stopped after the bitmap and output segment 0 were applied
+/// but before rangeproof / kernel segment 0, reopened on the same directory, and then given a complete honest
+/// state sync. Returns what happened, step by step.
+fn restart_probe(rdir: &str, g: &Block, blocks: &[Block], ainfo: &Value, dir: &str) -> Value {
+	let mut log: Vec<Value> = vec![];
+	let status = Arc::new(SyncState::new());
+	let nseg = |t: &str| ainfo[t]["nseg"].as_u64().unwrap();
+	let archive_height = ainfo["height"].as_u64().unwrap();
+	let first = catch_unwind(AssertUnwindSafe(|| -> Result<(), String> {
+		let rx = new_receiver(rdir, g, blocks, archive_height)?;
+		let d = rx.chain.desegmenter(&rx.archive).map_err(|e| format!("{}", e))?;
+		let mut guard = d.write();
+		let de = guard.as_mut().unwrap();
+		for i in 0..nseg("bitmap") {
+			deliver_honest(de, dir, "bitmap", i)?;
+		}
+		for _ in 0..(nseg("bitmap") + 1) {
+			de.apply_next_segments().map_err(|e| format!("{}", e))?;
+			let _ = de.check_progress(status.clone());
+		}
+		deliver_honest(de, dir, "output", 0)?;
+		de.apply_next_segments().map_err(|e| format!("{}", e))?;
+		let _ = de.check_progress(status.clone());
+		Ok(())
+	}));
+	log.push(json!({"phase": "first_attempt_until_output_0", "res": match &first { Ok(Ok(())) => "ok".to_string(), Ok(Err(e)) => format!("err: {}", e), Err(p) => format!("panic: {}", crate::comp::panic_msg(p)) }}));
+	if !matches!(first, Ok(Ok(()))) {
+		return json!({"log": log, "outcome": "not_reached"});
+	}
+	// the chain (and its LMDB environment) is dropped here: a clean stop
+	let second = catch_unwind(AssertUnwindSafe(|| -> Result<String, String> {
+		let chain = init_chain(&format!("{}/chain_data", rdir), g);
+		let archive = chain.txhashset_archive_header_header_only().map_err(|e| format!("{}", e))?;
+		let d = chain.desegmenter(&archive).map_err(|e| format!("{}", e))?;
+		let mut guard = d.write();
+		let de = guard.as_mut().unwrap();
+		for i in 0..nseg("bitmap") {
+			deliver_honest(de, dir, "bitmap", i).map_err(|e| format!("bitmap {}: {}", i, e))?;
+		}
+		for _ in 0..(nseg("bitmap") + 1) {
+			de.apply_next_segments().map_err(|e| format!("apply: {}", e))?;
+		}
+		for t in ["output", "rangeproof", "kernel"] {
+			for i in 0..nseg(t) {
+				deliver_honest(de, dir, t, i).map_err(|e| format!("{} {}: {}", t, i, e))?;
+			}
+		}
+		let mut complete = false;
+		for _ in 0..(nseg("output") + nseg("kernel") + 4) {
+			de.apply_next_segments().map_err(|e| format!("apply: {}", e))?;
+			complete = de.check_progress(status.clone()).unwrap_or(false);
+			if complete {
+				break;
+			}
+		}
+		if !complete {
+			return Ok("incomplete".to_string());
+		}
+		de.check_update_leaf_set_state().map_err(|e| format!("leaf sets: {}", e))?;
+		de.validate_complete_state(status.clone(), Arc::new(StopState::new())).map_err(|e| format!("validate: {}", e))?;
+		Ok("ok".to_string())
+	}));
+	let outcome = match &second {
+		Ok(Ok(s)) => s.clone(),
+		Ok(Err(e)) => format!("err: {}", e),
+		Err(p) => format!("panic: {}", crate::comp::panic_msg(p)),
+	};
+	log.push(json!({"phase": "reopen_then_complete_honest_sync", "res": outcome}));
+	json!({"log": log, "outcome": outcome})
+}
+
 fn applied_count(h: u8, total: u64, local: u64) -> u64 {
 	let n = SegmentIdentifier::count_segments_required(total, h) as u64;
 	let mut k = 0;
@@ -634,11 +765,28 @@ fn run_phase(args: &Args) -> i32 {
 		.filter_map(|v| v.get("pos").and_then(|p| p.as_u64()))
 		.map(|p| p - 1)
 		.collect();
+	let unspent_pos0: HashSet<u64> = {
+		let out_size = ainfo["output"]["size"].as_u64().unwrap();
+		let mut all = unspent_pos0.clone();
+		for p in unspent_pos0.iter() {
+			all.insert(*p | POISON_FLAG);
+			let sib = if grin_core::core::pmmr::is_left_sibling(*p) { *p + 1 } else { *p - 1 };
+			all.insert(sib | POISON_FLAG);
+		}
+		all.insert((out_size - 1) | POISON_FLAG);
+		all
+	};
 	let scens = read_ndjson(args.req("scen"));
 	let mut out = NdWriter::create(args.req("out"));
 	for (si, sc) in scens.iter().enumerate() {
 		let name = sc["name"].as_str().unwrap_or("?").to_string();
 		let rdir = format!("{}/rx_{}", work, si);
+		if sc["kind"].as_str() == Some("restart_probe") {
+			let probe = restart_probe(&rdir, &g, &blocks, ainfo, &dir);
+			out.put(&json!({"name": name, "kind": "restart_probe", "probe": probe, "events": [], "problems": [], "final": {}}));
+			let _ = fs::remove_dir_all(&rdir);
+			continue;
+		}
 		let mut events: Vec<Value> = vec![];
 		let mut problems: Vec<Value> = vec![];
 		let rx = match new_receiver(&rdir, &g, &blocks, archive_height) {
@@ -742,9 +890,73 @@ fn run_phase(args: &Args) -> i32 {
 					Err(_) => events.push(json!({"k": "Apply", "res": "panic", "complete": false})),
 				}
 			};
+			let drain = sc["drain"].as_u64().unwrap_or(8);
+			let mut finalised_mid = false;
+			// drain (keep applying until complete or the round limit), then what state_sync.rs does once
+			// check_progress reports completion
+			let finish = |events: &mut Vec<Value>, complete: &mut bool, do_apply: &mut dyn FnMut(&mut Vec<Value>, &mut bool)| -> bool {
+				let mut rounds = 0;
+				while !*complete && rounds < drain {
+					do_apply(events, complete);
+					rounds += 1;
+				}
+				let res = if *complete {
+					let r = catch_unwind(AssertUnwindSafe(|| {
+						let guard = d.read();
+						let de = guard.as_ref().unwrap();
+						de.check_update_leaf_set_state()?;
+						de.validate_complete_state(status.clone(), stop.clone())
+					}));
+					match r {
+						Ok(Ok(())) => "ok".to_string(),
+						Ok(Err(e)) => format!("err: {}", e),
+						Err(_) => "panic".to_string(),
+					}
+				} else {
+					"incomplete".to_string()
+				};
+				let ok = res == "ok";
+				events.push(json!({"k": "Finalize", "complete": *complete, "res": if ok { "ok" } else if *complete { "err" } else { "incomplete" }, "detail": res}));
+				ok
+			};
 			for st in sc["steps"].as_array().unwrap() {
 				match st["k"].as_str().unwrap() {
 					"Apply" => do_apply(&mut events, &mut complete),
+					"Finalize" => {
+						if finish(&mut events, &mut complete, &mut do_apply) {
+							// finalised: nothing of the scenario (a restart after a refused attempt) applies any more
+							finalised_mid = true;
+							break;
+						}
+					}
+					// the PIBD-failure restart of servers/src/grin/sync/state_sync.rs (check_run)
+					"Restart" => {
+						let r = catch_unwind(AssertUnwindSafe(|| -> Vec<String> {
+							let mut errs = vec![];
+							if let Some(de) = d.write().as_mut() {
+								de.reset();
+							}
+							if let Err(e) = rx.chain.reset_pibd_head() {
+								errs.push(format!("reset_pibd_head: {}", e));
+							}
+							if let Err(e) = rx.chain.reset_chain_head_to_genesis() {
+								errs.push(format!("reset_chain_head_to_genesis: {}", e));
+							}
+							if let Err(e) = rx.chain.reset_prune_lists() {
+								errs.push(format!("reset_prune_lists: {}", e));
+							}
+							errs
+						}));
+						complete = false;
+						match r {
+							Ok(errs) => {
+								let mut e = json!({"k": "Restart", "res": if errs.is_empty() { "ok" } else { "err" }, "errs": errs});
+								e["proj"] = proj(0);
+								events.push(e);
+							}
+							Err(_) => events.push(json!({"k": "Restart", "res": "panic"})),
+						}
+					}
 					"Add" => {
 						let tree = st["tree"].as_str().unwrap();
 						let idx = st["idx"].as_u64().unwrap();
@@ -828,30 +1040,7 @@ fn run_phase(args: &Args) -> i32 {
 					x => panic!("step {}", x),
 				}
 			}
-			// drain: keep applying until complete or no progress is possible
-			let mut rounds = 0;
-			while !complete && rounds < sc["drain"].as_u64().unwrap_or(8) {
-				do_apply(&mut events, &mut complete);
-				rounds += 1;
-			}
-			let res = if complete {
-				let r = catch_unwind(AssertUnwindSafe(|| {
-					// as servers/src/grin/sync/state_sync.rs does once check_progress reports completion
-					let guard = d.read();
-					let de = guard.as_ref().unwrap();
-					de.check_update_leaf_set_state()?;
-					de.validate_complete_state(status.clone(), stop.clone())
-				}));
-				match r {
-					Ok(Ok(())) => "ok".to_string(),
-					Ok(Err(e)) => format!("err: {}", e),
-					Err(_) => "panic".to_string(),
-				}
-			} else {
-				"incomplete".to_string()
-			};
-			finalised_ok = res == "ok";
-			events.push(json!({"k": "Finalize", "complete": complete, "res": if finalised_ok { "ok" } else if complete { "err" } else { "incomplete" }, "detail": res}));
+			finalised_ok = if finalised_mid { true } else { finish(&mut events, &mut complete, &mut do_apply) };
 		}
 
 		// ---- final-state comparisons
